@@ -147,3 +147,10 @@ Theorem c07_rules_validator_decides : forall pkgs e tree,
   agrees (spec_walk pkgs) e tree = true <-> RulesObeyed pkgs e tree.
 Proof. exact rules_validator_decides. Qed.
 Print Assumptions c07_rules_validator_decides.
+
+(* ... and so does the per-entry validator (every recorded entry exists with the
+   recorded kind, mode, owner and content) *)
+Theorem c07_entry_validator_decides : forall pre tree fm d,
+  check_entry pre tree fm d = [] <-> EntryTrue tree d.
+Proof. exact entry_validator_decides. Qed.
+Print Assumptions c07_entry_validator_decides.
